@@ -19,7 +19,7 @@ import (
 	"verifharness/tlc"
 )
 
-const SpecDir = "/verif/specs/load"
+var SpecDir = rep.Root + "/specs/load"
 
 type rEntry struct{ Name, Alias string }
 type rExp struct {
